@@ -817,18 +817,27 @@ def needsLFails (v : Variant) (r : Reaction) (cfg : Config) : Bool :=
       let kind := if decayKey ch.states t.inters ni ∈ keys then kindFor r cfg (stateAt ch.states ni.self.edge).pidx else .nd
       kind.needsL && (varSet r ch.states t.inters ni).l.isNone)))
 
+/-- DalitzPlotDecomposition refuses the reaction (not relabelled / not three-body / bad reference) -/
+def dpdBad (r : Reaction) (cfg : Config) : Bool :=
+  match cfg.align with
+  | .dpd ref => decide (outerIds r ≠ [0, 1, 2, 3]) || (topoGroups r r.transitions).any (fun tg => (spectator tg.1).isNone)
+      || !(ref = 1 || ref = 2 || ref = 3)
+  | _ => false
+
+/-- a stable id that is not a final-state id: KeyError -/
+def stableBad (r : Reaction) (cfg : Config) : Bool :=
+  match cfg.stable, r.transitions with
+  | some ids, t0 :: _ => ids.any (fun i => i ∉ finalIds r t0)
+  | _, _ => false
+
 def errorOf (v : Variant) (r : Reaction) (cfg : Config) : Option Err :=
   match r.transitions with
   | [] => some .valueError
-  | t0 :: _ =>
+  | _ :: _ =>
     if r.canonical && r.transitions.any (fun t => t.inters.any (fun i => i.l.isNone || i.s2.isNone)) then some .typeError
     else if needsLFails v r cfg then some .valueError
-    else if (match cfg.align with
-        | .dpd _ => decide (outerIds r ≠ [0, 1, 2, 3]) || (topoGroups r r.transitions).any (fun tg => (spectator tg.1).isNone)
-        | _ => false) then some .valueError
-    else if (match cfg.stable with
-        | some ids => ids.any (fun i => i ∉ finalIds r t0)
-        | none => false) then some .keyError
+    else if dpdBad r cfg then some .valueError
+    else if stableBad r cfg then some .keyError
     else none
 
 /-! ## Name classes and well-formed trees (used by the theorems, not by the driver) -/
